@@ -30,6 +30,7 @@ PROGRAMS = {
   'vfh':  (['vfh.c','streams.c'], '-Wl,--wrap=exit'),
   'ench': (['ench.c','scn.c','streams.c'], '-Wl,--wrap=exit'),
   'pdh':  (['pdh.c','scn.c','streams.c'], '-Wl,--wrap=exit'),
+  'insth': (['insth.c','scn.c','streams.c'], '-Wl,--wrap=exit'),
   'cmh':  (['cmh.c','scn.c','streams.c'], '-Wl,--wrap=exit -Wl,--wrap=toupper -Wl,--wrap=tolower -Wl,--wrap=strcasecmp -Wl,--wrap=strncasecmp'),
 }
 
